@@ -1,10 +1,16 @@
 #!/bin/bash
-# Build the whole Coq development from /repo's current tree (offline).
-set -e
+# Build the whole Coq development from /repo's current tree (offline).  On a tree that the translator refuses or on
+# which a proof no longer goes through, everything that can be built is built and the script still ends normally: it
+# is the checks that report what no longer checks.
 cd "$(dirname "$0")"
 export PYTHONHASHSEED=0 PYTHONDONTWRITEBYTECODE=1
 mkdir -p work evidence
-/venv/bin/python tools/translate/gen.py --repo "${VERIF_REPO:-/repo}" --out coq/Gen
+if /venv/bin/python tools/translate/gen.py --repo "${VERIF_REPO:-/repo}" --out coq/Gen; then
+  mkdir -p work/gen_lastgood && cp coq/Gen/*.v work/gen_lastgood/
+else
+  echo "setup: the model could not be regenerated completely from this tree (the checks will report it)"
+fi
 cd coq
 coq_makefile -f _CoqProject -o Makefile >/dev/null
-timeout 7200 make -j16
+timeout 7200 make -k -j16 || echo "setup: the build is incomplete on this tree (the checks will report it)"
+exit 0
